@@ -12,6 +12,7 @@ pub fn n_cases(prop: &str, tier: &str) -> usize {
         "C04" => if quick { 96 } else { 6000 },
         "C05" => if quick { 156 } else { 8008 },
         "C07" | "C08" => crate::props_bin::n_cases(prop, tier),
+        "C06" | "C17" => crate::props_stat::n_cases(prop, tier),
         _ => 0,
     }
 }
@@ -26,6 +27,7 @@ pub fn gen_case(prop: &str, tier: &str, rng: &mut Rng, idx: usize) -> Case {
         "C04" => crate::props_sim::c04(rng, tier, idx),
         "C05" => crate::props_sim::c05(rng, tier, idx),
         "C07" | "C08" => crate::props_bin::gen_case(prop, tier, rng, idx),
+        "C06" | "C17" => crate::props_stat::gen_case(prop, tier, rng, idx),
         _ => panic!("no generator for property {prop}"),
     }
 }
